@@ -1,4 +1,5 @@
 import Sgz.Proofs.Crop
+import Sgz.Proofs.Derived
 /-!
 # C10 — cropping
 
@@ -103,5 +104,16 @@ def bS : Box := box gS (some (5, 7)) none (some (100, 257))
 example : gS.Valid ∧ bS = ⟨4, 8, 0, 10, 0, 300⟩ := by decide
 example : refuses gS none none none = true ∧ refuses gS (some (3, 3)) none none = true
     ∧ refuses gS (some (0, 10)) none none = true ∧ refuses gS (some (5, 7)) none none = false := by decide
+
+/-- the line axes a reader builds from the cropped header (`Derived.cropHeader`: origin moved by `x0` increments) are the
+source's axes restricted to the box: every line keeps its number -/
+theorem cropped_axis_is_source_axis_restricted (a d : Int) (n x0 len : Nat) (h : x0 + len ≤ n) :
+    Axes.axis (a + d * (x0 : Int)) d len = ((Axes.axis a d n).drop x0).take len :=
+  Derived.crop_axis a d n x0 len h
+
+/-- the cropped file's header is conformant (geometry, data length, array length, trace count) -/
+theorem cropped_header_conformant (f : Header.Fields) (hc : Derived.Conformant f) (b : Crop.Box)
+    (hb : Crop.Aligned (Derived.geoOf f) b) (s : Bool) (p : Nat) (hp : p ≤ (b.i1 - b.i0) * (b.x1 - b.x0)) :
+    Derived.Conformant (Derived.cropHeader f b s p) := Derived.crop_conformant f hc b hb s p hp
 
 end Sgz.Props.C10
